@@ -4,6 +4,7 @@ standard library (tools/prim_selftest.sh).  `drv_prim bench` prints measured thr
 -/
 import TdModel.Prim.SHA256
 import TdModel.Prim.SHA1
+import TdModel.Prim.AES
 open TdModel TdModel.Prim
 
 def hex1 (f : Bytes → String) (a : String) : String :=
@@ -11,10 +12,23 @@ def hex1 (f : Bytes → String) (a : String) : String :=
   | some x => f x
   | none => "bad-op"
 
+def hex2 (f : Bytes → Bytes → String) (a b : String) : String :=
+  match ofHex a, ofHex b with
+  | some x, some y => f x y
+  | _, _ => "bad-op"
+
 def handle (line : String) : String :=
   match words line with
   | ["sha256", a] => hex1 (fun x => toHex (sha256 x)) a
   | ["sha1", a] => hex1 (fun x => toHex (sha1 x)) a
+  | ["aesenc", k, b] => hex2 (fun k b => toHex (aesEncBlock k b)) k b
+  | ["aesdec", k, b] => hex2 (fun k b => toHex (aesDecBlock k b)) k b
+  | ["aesctr", k, iv, skip, d] =>
+    match ofHex k, ofHex iv, skip.toNat?, ofHex d with
+    | some k, some iv, some skip, some d =>
+      -- skip = 0 goes through `aesCtr` so that both exported entry points are exercised
+      toHex (if skip == 0 then aesCtr k iv d else aesCtrAt k iv skip d)
+    | _, _, _, _ => "bad-op"
   | _ => "bad-op"
 
 def main (args : List String) : IO Unit :=
